@@ -62,7 +62,13 @@ func (pp *PushPromise) Deserialize(fr *FrameHeader) error {
 }
 
 func (pp *PushPromise) Serialize(fr *FrameHeader) {
-	fr.payload = fr.payload[:0]
+	if pp.ended {
+		fr.SetFlags(
+			fr.Flags().Add(FlagEndHeaders))
+	}
+
+	// the promised stream id comes before the header block fragment
+	fr.payload = http2utils.AppendUint32Bytes(fr.payload[:0], pp.stream&(1<<31-1))
 
 	// if pp.pad {
 	// 	fr.Flags().Add(FlagPadded)
